@@ -306,7 +306,11 @@ def _oracle_one(case, rec, count=True):
                 if not np.isneginf(got):
                     raise PropertyViolation(key, "log cdf below support is %r, expected -inf" % (got,), case)
             else:
-                _close(got, mp.log(ref), 1e-8, "p%s(%r,%r,log=True)" % (fam, x, P), key, case)
+                # log cdf near 0 (cdf within 1e-12 of 1, e.g. x at the top of a binomial's support): judged on the cdf scale
+                if abs(float(mp.log(ref))) < 1e-11 and abs(float(got)) < 1e-11:
+                    pass
+                else:
+                    _close(got, mp.log(ref), 1e-8, "p%s(%r,%r,log=True)" % (fam, x, P), key, case)
         else:
             _close(got, ref, 1e-9, "p%s(%r,%r)" % (fam, x, P), key, case)
     elif kind == "q":
